@@ -211,25 +211,29 @@ theorem pmCont_process (spec : EnvSpec σ M R) (hok : spec.OK) (key : M → ι) 
     ∃ pm', pmCont key (spec.proc env) (f + 1) (pmProcess key (spec.proc env) s m')
         = (.yld (emDecide spec key s.msgsSeen env m').2.2.2, .atYield pm') ∧
       EmInv spec key pm' (emDecide spec key s.msgsSeen env m').1 p'
-        (emDecide spec key s.msgsSeen env m').2.2.1 (emDecide spec key s.msgsSeen env m').2.2.2 := by
+        (emDecide spec key s.msgsSeen env m').2.2.1 (emDecide spec key s.msgsSeen env m').2.2.2 ∧
+      envPost spec (.atYield pm') env = (emDecide spec key s.msgsSeen env m').2.1 := by
   unfold pmProcess emDecide
   by_cases hseen : s.msgsSeen.contains (key m') = true
   · simp only [hseen, ↓reduceIte, pmCont]
-    exact ⟨s, rfl, .inl ⟨rfl, hps, hrs, htc, htrc, hex, hn⟩⟩
+    exact ⟨s, rfl, .inl ⟨rfl, hps, hrs, htc, htrc, hex, hn⟩, by simp [envPost, topFirstYield, hps]⟩
   · simp only [hseen, Bool.false_eq_true, ↓reduceIte, EnvSpec.proc]
     cases hd : spec.decide env m' with
     | pass =>
       simp only [pmCont]
-      exact ⟨_, rfl, .inl ⟨rfl, hps, hrs, htc, htrc, hex, hn⟩⟩
+      exact ⟨_, rfl, .inl ⟨rfl, hps, hrs, htc, htrc, hex, hn⟩, by simp [envPost, topFirstYield, hps]⟩
     | silent =>
       simp only [pmCont]
       rw [pmLoop_succ]
       unfold pmIter
       simp only [hex, hrs, hps, pmOnSend, new_silentHead, pmProcess, List.contains_cons, beq_self_eq_true,
         Bool.true_or, ↓reduceIte, pmCont]
+      have hnq := hok.silent_notQuery env m' hd
       refine ⟨_, rfl, .inr ⟨s.nextId, hS m', ⟨rfl, rfl, by omega, rfl, ?_, htrc, rfl, by simp⟩,
-        .silent (hok.silent_notQuery env m' hd)⟩⟩
-      simp [htc, dictSet, dictDel]
+        .silent hnq⟩, ?_⟩
+      · simp [htc, dictSet, dictDel]
+      · have h0 : s.nextId ≠ 0 := by omega
+        simp [envPost, topFirstYield, h0, hS, Prog.beh, silentHead, Prog.after, hnq]
     | ask q =>
       simp only [pmCont]
       rw [pmLoop_succ]
@@ -240,11 +244,488 @@ theorem pmCont_process (spec : EnvSpec σ M R) (hok : spec.OK) (key : M → ι) 
       unfold pmProcess
       by_cases hqs : (key m' :: s.msgsSeen).contains (key q) = true
       · simp only [hqs, ↓reduceIte, pmCont]
-        refine ⟨_, rfl, s.nextId, ⟨rfl, rfl, by omega, rfl, ?_, htrc, rfl, by simp⟩, hq, by simp⟩
-        simp [htc, dictSet, dictDel]
+        have h0 : s.nextId ≠ 0 := by omega
+        refine ⟨_, rfl, ⟨s.nextId, ⟨rfl, rfl, by omega, rfl, ?_, htrc, rfl, by simp⟩, hq, by simp⟩, ?_⟩
+        · simp [htc, dictSet, dictDel]
+        · simp [envPost, topFirstYield, h0, hQ, Prog.beh, askHead, Prog.after, hq]
       · simp only [hqs, Bool.false_eq_true, ↓reduceIte, EnvSpec.proc, hqp, pmCont]
-        refine ⟨_, rfl, s.nextId, ⟨rfl, rfl, by omega, rfl, ?_, htrc, rfl, by simp⟩, hq, by simp⟩
-        simp [htc, dictSet, dictDel]
+        have h0 : s.nextId ≠ 0 := by omega
+        refine ⟨_, rfl, ⟨s.nextId, ⟨rfl, rfl, by omega, rfl, ?_, htrc, rfl, by simp⟩, hq, by simp⟩, ?_⟩
+        · simp [htc, dictSet, dictDel]
+        · simp [envPost, topFirstYield, h0, hQ, Prog.beh, askHead, Prog.after, hq]
+
+/-- what plan_mutator does after the wrapped plan was resumed with result `out` -/
+def FeedResult (spec : EnvSpec σ M R) (key : M → ι) (env : σ) (seen : List ι)
+    (res : Out M V E × PMSt M ι R V E) : Out M V E × Pos M R V E → Prop
+  | (.ret v, _) => res = (.ret v, .fin)
+  | (.raise x, _) => res = (.raise x, .fin)
+  | (.yld m', p') =>
+    ∃ pm', res = (.yld (emDecide spec key seen env m').2.2.2, .atYield pm') ∧
+      EmInv spec key pm' (emDecide spec key seen env m').1 p'
+        (emDecide spec key seen env m').2.2.1 (emDecide spec key seen env m').2.2.2 ∧
+      envPost spec (.atYield pm') env = (emDecide spec key seen env m').2.1
+
+/-- the iteration(s) in which the wrapped plan is sent `r` -/
+theorem feed_send (spec : EnvSpec σ M R) (hok : spec.OK) (key : M → ι) (env : σ) (f : Nat)
+    (s : PM M ι R V E) (p : Pos M R V E) (r : R)
+    (hps : s.planStack = [(0, p)]) (hrs : s.resultStack = [r]) (htc : s.tailCache = [])
+    (htrc : s.tailResultCache = []) (hex : s.exception = none) (hn : 1 ≤ s.nextId) :
+    FeedResult spec key env s.msgsSeen (pmLoop key (spec.proc env) (f + 2) s) (p.resume (.send r)) := by
+  rw [pmLoop_succ]
+  unfold pmIter
+  simp only [hex, hrs, hps]
+  unfold pmOnSend
+  cases hres : p.resume (.send r) with
+  | mk o p' =>
+    cases o with
+    | yld m' =>
+      simp only [FeedResult]
+      exact pmCont_process spec hok key env f _ p' m' rfl rfl htc htrc rfl hn
+    | ret v =>
+      simp only [FeedResult]
+      rw [pmExhausted_parent_alone _ _ (by exact htc)]
+      rfl
+    | raise x =>
+      simp only [FeedResult]
+      by_cases hx : isException x = true
+      · simp [pmSend_caught, hx, htc, dictGet, pmCont]
+      · simp [pmSend_caught, hx, pmCont]
+
+/-- the iteration(s) in which `e` is thrown into the wrapped plan -/
+theorem feed_throw (spec : EnvSpec σ M R) (hok : spec.OK) (key : M → ι) (env : σ) (f : Nat)
+    (s : PM M ι R V E) (p : Pos M R V E) (e : E)
+    (hps : s.planStack = [(0, p)]) (hrs : s.resultStack = []) (htc : s.tailCache = [])
+    (htrc : s.tailResultCache = []) (hex : s.exception = some e) (hn : 1 ≤ s.nextId) :
+    FeedResult spec key env s.msgsSeen (pmLoop key (spec.proc env) (f + 2) s) (p.resume (.throw e)) := by
+  rw [pmLoop_succ]
+  unfold pmIter
+  simp only [hex, hps]
+  unfold pmOnThrow
+  cases hres : p.resume (.throw e) with
+  | mk o p' =>
+    cases o with
+    | yld m' =>
+      simp only [FeedResult]
+      exact pmCont_process spec hok key env f _ p' m' rfl hrs htc htrc rfl hn
+    | ret v =>
+      simp only [FeedResult]
+      rw [pmExhausted_parent_alone _ _ (by exact htc)]
+      rfl
+    | raise x =>
+      simp only [FeedResult]
+      by_cases hx : isException x = true
+      · simp [pmThrow_caught, hx, pmCont]
+      · simp [pmThrow_caught, hx, pmCont]
+
+/-- result of one resume of `emStep` in which the input went to the wrapped plan -/
+def EmFeed (spec : EnvSpec σ M R) (key : M → ι) (env : σ) (seen : List ι)
+    (res : Out (M × σ) V E × EMSt σ M ι R V E) : Out M V E × Pos M R V E → Prop
+  | (.ret v, _) => res = (.ret v, ⟨.fin, env⟩)
+  | (.raise x, _) => res = (.raise x, ⟨.fin, env⟩)
+  | (.yld m', p') =>
+    ∃ pm', res = (.yld ((emDecide spec key seen env m').2.2.2, (emDecide spec key seen env m').2.1),
+                  ⟨.atYield pm', (emDecide spec key seen env m').2.1⟩) ∧
+      EmInv spec key pm' (emDecide spec key seen env m').1 p'
+        (emDecide spec key seen env m').2.2.1 (emDecide spec key seen env m').2.2.2
+
+theorem emFeed_of (spec : EnvSpec σ M R) (key : M → ι) (env : σ) (seen : List ι)
+    (res0 : Out M V E × PMSt M ι R V E) (out : Out M V E × Pos M R V E)
+    (h : FeedResult spec key env seen res0 out) :
+    EmFeed spec key env seen
+      (annotate (envPost spec res0.2 env) res0.1, ⟨res0.2, envPost spec res0.2 env⟩) out := by
+  rcases out with ⟨o, p'⟩
+  cases o with
+  | ret v => simp only [FeedResult] at h; subst h; rfl
+  | raise x => simp only [FeedResult] at h; subst h; rfl
+  | yld m' =>
+    obtain ⟨pm', h1, h2, h3⟩ := h
+    subst h1
+    exact ⟨pm', by simp only [h3, annotate], h2⟩
+
+theorem envPre_throw (spec : EnvSpec σ M R) (st : PMSt M ι R V E) (e : E) (env : σ) :
+    envPre spec st (.throw e) env = env := by
+  unfold envPre; split <;> simp_all
+
+theorem topFirstYield_A (pm : PM M ι R V E) (seen : List ι) (p : Pos M R V E) (h : InvA pm seen p) :
+    topFirstYield (.atYield pm) = none := by
+  simp [topFirstYield, h.2.1]
+
+theorem topFirstYield_H (isQuery : M → Bool) (pm : PM M ι R V E) (seen : List ι) (g : Nat)
+    (h p : Pos M R V E) (em : M) (hi : InvH pm seen g h p) (hh : HeadAtMsg isQuery em h) :
+    topFirstYield (.atYield pm) = none ∨
+      (topFirstYield (.atYield pm) = some em ∧ isQuery em = false) := by
+  cases hh with
+  | afterAsk q r => left; simp [topFirstYield, hi.2.1, hA]
+  | silent hq =>
+    right
+    exact ⟨by simp [topFirstYield, hi.2.1, hi.2.2.1, hS, Prog.beh, silentHead, Prog.after], hq⟩
+
+theorem envPre_plain (spec : EnvSpec σ M R) (key : M → ι) (pm : PM M ι R V E) (seen : List ι)
+    (p : Pos M R V E) (em : M) (h : EmInv spec key pm seen p .plain em) (i : Inp R E) (env : σ) :
+    envPre spec (.atYield pm) i env = env := by
+  cases i with
+  | throw e => exact envPre_throw spec _ e env
+  | send r =>
+    rcases h with h | ⟨g, hd, hi, hh⟩
+    · simp [envPre, topFirstYield_A pm seen p h]
+    · rcases topFirstYield_H spec.isQuery pm seen g hd p em hi hh with h1 | ⟨h1, h2⟩
+      · simp [envPre, h1]
+      · simp [envPre, h1, h2]
+
+/-- the iteration in which a head that has done its work is resumed with a response: it returns,
+    is popped, and the response goes on to the wrapped plan -/
+theorem head_send_iter (key : M → ι) (proc : Proc M R V E) (n : Nat) (pm : PM M ι R V E)
+    (seen : List ι) (g : Nat) (h p : Pos M R V E) (r : R) (hi : InvH pm seen g h p)
+    (hret : (h.resume (.send r)).1 = .ret default) :
+    ∃ s', pmLoop key proc (n + 1) { pm with resultStack := r :: pm.resultStack } = pmLoop key proc n s' ∧
+      s'.msgsSeen = seen ∧ s'.planStack = [(0, p)] ∧ s'.resultStack = [r] ∧ s'.tailCache = [] ∧
+      s'.tailResultCache = [] ∧ s'.exception = none ∧ 1 ≤ s'.nextId := by
+  obtain ⟨h1, h2, h3, h4, h5, h6, h7, h8⟩ := hi
+  rw [pmLoop_succ]
+  unfold pmIter
+  simp only [h7, h4, h2]
+  unfold pmOnSend
+  cases hres : h.resume (.send r) with
+  | mk o h' =>
+    rw [hres] at hret
+    simp only at hret
+    subst hret
+    simp only [pmExhausted, h3, ↓reduceIte, h6, h5, dictGet, dictDel, List.find?_nil, Option.map_none,
+      List.find?_cons_of_pos, decide_true, Option.map_some, List.isEmpty_cons, Bool.false_eq_true,
+      pmCont]
+    refine ⟨_, rfl, h1, rfl, rfl, ?_, rfl, rfl, h8⟩
+    simp
+
+/-- the iteration in which an `Exception` is thrown into a head: it dies, is popped and forgotten,
+    and the exception goes on to the wrapped plan -/
+theorem head_throw_iter (key : M → ι) (proc : Proc M R V E) (n : Nat) (pm : PM M ι R V E)
+    (seen : List ι) (g : Nat) (h p : Pos M R V E) (e : E) (hi : InvH pm seen g h p)
+    (hx : isException e = true) (hraise : (h.resume (.throw e)).1 = .raise e) :
+    ∃ s', pmLoop key proc (n + 1) { pm with exception := some e } = pmLoop key proc n s' ∧
+      s'.msgsSeen = seen ∧ s'.planStack = [(0, p)] ∧ s'.resultStack = [] ∧ s'.tailCache = [] ∧
+      s'.tailResultCache = [] ∧ s'.exception = some e ∧ 1 ≤ s'.nextId := by
+  obtain ⟨h1, h2, h3, h4, h5, h6, h7, h8⟩ := hi
+  rw [pmLoop_succ]
+  unfold pmIter
+  simp only [h2]
+  unfold pmOnThrow
+  cases hres : h.resume (.throw e) with
+  | mk o h' =>
+    rw [hres] at hraise
+    simp only at hraise
+    subst hraise
+    simp only [pmThrow_caught, hx, ↓reduceIte, List.isEmpty_cons, Bool.false_eq_true, pmCont]
+    refine ⟨_, rfl, h1, rfl, h4, ?_, ?_, rfl, h8⟩
+    · simp [h5, dictDel]
+    · simp [h6, dictDel]
+
+theorem emStep_unfold (fuel : Nat) (key : M → ι) (spec : EnvSpec σ M R) (plan : Beh M R V E)
+    (st : PMSt M ι R V E) (env : σ) (i : Inp R E) :
+    emStep fuel key spec plan ⟨st, env⟩ i
+      = (annotate (envPost spec (pmStep fuel key (spec.proc (envPre spec st i env)) plan st i).2
+            (envPre spec st i env))
+          (pmStep fuel key (spec.proc (envPre spec st i env)) plan st i).1,
+         ⟨(pmStep fuel key (spec.proc (envPre spec st i env)) plan st i).2,
+          envPost spec (pmStep fuel key (spec.proc (envPre spec st i env)) plan st i).2
+            (envPre spec st i env)⟩) := rfl
+
+/-- an input that goes to the wrapped plan -/
+theorem emStep_feed (spec : EnvSpec σ M R) (hok : spec.OK) (key : M → ι) (plan : Beh M R V E)
+    (f : Nat) (pm : PM M ι R V E) (seen : List ι) (env : σ) (p : Pos M R V E) (mode : EmMode M)
+    (em : M) (hinv : EmInv spec key pm seen p mode em) (i : Inp R E)
+    (hfeed : emInput mode i = .feed) :
+    EmFeed spec key env seen (emStep (f + 3) key spec plan ⟨.atYield pm, env⟩ i) (p.resume i) := by
+  rw [emStep_unfold]
+  cases i with
+  | send r =>
+    -- only in plain mode does a response go to the wrapped plan
+    cases mode with
+    | query m => simp [emInput] at hfeed
+    | plain =>
+      rw [envPre_plain spec key pm seen p em hinv]
+      rcases hinv with h | ⟨g, hd, hi, hh⟩
+      · obtain ⟨rfl, h2, h3, h4, h5, h6, h7⟩ := h
+        have := feed_send spec hok key env (f + 1) { pm with resultStack := r :: pm.resultStack } p r
+          h2 (by simp [h3]) h4 h5 h6 h7
+        exact emFeed_of spec key env _ _ _ (by simpa [pmStep, pmResume] using this)
+      · obtain ⟨s', e1, e2, e3, e4, e5, e6, e7, e8⟩ :=
+          head_send_iter key (spec.proc env) (f + 2) pm seen g hd p r hi (hh.send r)
+        have := feed_send spec hok key env f s' p r e3 e4 e5 e6 e7 e8
+        rw [e2] at this
+        refine emFeed_of spec key env seen _ _ ?_
+        simpa [pmStep, pmResume, e1] using this
+  | throw e =>
+    have hx : isException e = true := by
+      cases mode <;> simp only [emInput] at hfeed <;> split at hfeed <;> simp_all
+    rw [envPre_throw]
+    have hstep : ∀ (hne : pm.planStack.isEmpty = false),
+        pmStep (f + 3) key (spec.proc env) plan (.atYield pm) (.throw e)
+          = pmLoop key (spec.proc env) (f + 3) { pm with exception := some e } := by
+      intro hne
+      simp [pmStep, pmResume, pmYield_exception e hx, hne]
+    -- the shapes of the stack
+    have key1 : (InvA pm seen p) ∨ (∃ g hd, InvH pm seen g hd p ∧ (hd.resume (.throw e)).1 = .raise e) := by
+      cases mode with
+      | plain =>
+        rcases hinv with h | ⟨g, hd, hi, hh⟩
+        · exact .inl h
+        · exact .inr ⟨g, hd, hi, hh.throw e⟩
+      | query m =>
+        obtain ⟨g, hi, _, _⟩ := hinv
+        exact .inr ⟨g, _, hi, hQ_throw em m e⟩
+    rcases key1 with h | ⟨g, hd, hi, hr⟩
+    · obtain ⟨rfl, h2, h3, h4, h5, h6, h7⟩ := h
+      have := feed_throw spec hok key env (f + 1) { pm with exception := some e } p e
+        h2 h3 h4 h5 rfl h7
+      refine emFeed_of spec key env _ _ _ ?_
+      rw [hstep (by simp [h2])]
+      exact this
+    · obtain ⟨s', e1, e2, e3, e4, e5, e6, e7, e8⟩ :=
+        head_throw_iter key (spec.proc env) (f + 2) pm seen g hd p e hi hx hr
+      have := feed_throw spec hok key env f s' p e e3 e4 e5 e6 e7 e8
+      rw [e2] at this
+      refine emFeed_of spec key env seen _ _ ?_
+      rw [hstep (by simp [hi.2.1]), e1]
+      exact this
+
+/-- the response to a query: written into the variable and swallowed; the message goes out -/
+theorem emStep_answer (spec : EnvSpec σ M R) (key : M → ι) (plan : Beh M R V E)
+    (f : Nat) (pm : PM M ι R V E) (seen : List ι) (env : σ) (p : Pos M R V E) (m q : M) (r : R)
+    (hinv : EmInv spec key pm seen p (.query m) q) :
+    ∃ pm', emStep (f + 3) key spec plan ⟨.atYield pm, env⟩ (.send r)
+        = (.yld (m, spec.updAsk q r env), ⟨.atYield pm', spec.updAsk q r env⟩) ∧
+      EmInv spec key pm' seen p .plain m := by
+  obtain ⟨g, hi, hq, hseen⟩ := hinv
+  obtain ⟨h1, h2, h3, h4, h5, h6, h7, h8⟩ := hi
+  rw [emStep_unfold]
+  have hpre : envPre spec (.atYield pm) (.send r) env = spec.updAsk q r env := by
+    simp [envPre, topFirstYield, h2, h3, hQ, Prog.beh, askHead, Prog.after, hq]
+  rw [hpre]
+  have hloop : pmStep (f + 3) key (spec.proc (spec.updAsk q r env)) plan (.atYield pm) (.send r)
+      = (.yld m, .atYield { pm with resultStack := [], ret := r, planStack := [(g, hA q m r), (0, p)] }) := by
+    simp only [pmStep, pmResume]
+    rw [pmLoop_succ]
+    unfold pmIter
+    simp only [h7, h4, h2, pmOnSend, hQ_send, pmProcess, h1, hseen, ↓reduceIte, pmCont]
+  rw [hloop]
+  refine ⟨{ pm with resultStack := [], ret := r, planStack := [(g, hA q m r), (0, p)] }, ?_,
+    .inr ⟨g, hA q m r, ⟨h1, rfl, h3, rfl, h5, h6, h7, h8⟩, .afterAsk q r⟩⟩
+  simp [annotate, envPost, topFirstYield, hA]
+
+/-- a thrown BaseException that is not an `Exception` leaves plan_mutator at once -/
+theorem emStep_leave (spec : EnvSpec σ M R) (key : M → ι) (plan : Beh M R V E)
+    (f : Nat) (pm : PM M ι R V E) (env : σ) (e : E) (h1 : isException e = false)
+    (h2 : isGenExit e = false) :
+    emStep (f + 3) key spec plan ⟨.atYield pm, env⟩ (.throw e) = (.raise e, ⟨.fin, env⟩) := by
+  rw [emStep_unfold, envPre_throw]
+  simp [pmStep, pmResume, pmYield_other e h1 h2, annotate, envPost, topFirstYield]
+
+/-- closing the mutator closes the wrapped plan -/
+theorem emStep_close (spec : EnvSpec σ M R) (key : M → ι) (plan : Beh M R V E)
+    (f : Nat) (pm : PM M ι R V E) (seen : List ι) (env : σ) (p : Pos M R V E) (mode : EmMode M)
+    (em : M) (hinv : EmInv spec key pm seen p mode em) :
+    closeObs (emStep (f + 3) key spec plan ⟨.atYield pm, env⟩ (.throw PyExc.genExit)).1 = p.close.1 := by
+  rw [emStep_unfold, envPre_throw]
+  have key1 : (pm.planStack = [(0, p)]) ∨ (∃ g hd, pm.planStack = [(g, hd), (0, p)] ∧ hd.close.1 = none) := by
+    cases mode with
+    | plain =>
+      rcases hinv with h | ⟨g, hd, hi, hh⟩
+      · exact .inl h.2.1
+      · exact .inr ⟨g, hd, hi.2.1, hh.close⟩
+    | query m =>
+      obtain ⟨g, hi, _, _⟩ := hinv
+      exact .inr ⟨g, _, hi.2.1, hQ_close em m⟩
+  rcases key1 with h | ⟨g, hd, h, hc⟩
+  · simp only [pmStep, pmResume, pmYield_genExit _ PyExc.genExit_isGenExit, h, List.reverse_cons,
+      List.reverse_nil, List.nil_append, closeAll]
+    cases hcl : p.close with
+    | mk o p' =>
+      cases o with
+      | none => simp [closeObs, annotate, PyExc.genExit_isGenExit]
+      | some x =>
+        have := close_some_not_genExit p x (by rw [hcl])
+        simp [closeObs, annotate, this]
+  · simp only [pmStep, pmResume, pmYield_genExit _ PyExc.genExit_isGenExit, h, List.reverse_cons,
+      List.reverse_nil, List.nil_append, List.cons_append, closeAll]
+    cases hcl : p.close with
+    | mk o p' =>
+      cases o with
+      | none =>
+        cases hcl2 : hd.close with
+        | mk o2 hd' =>
+          rw [hcl2] at hc; simp only at hc; subst hc
+          simp [closeObs, annotate, PyExc.genExit_isGenExit]
+      | some x =>
+        have := close_some_not_genExit p x (by rw [hcl])
+        simp [closeObs, annotate, this]
+
+/-! ### the main theorem -/
+
+/-- the value of the closure variable when the drive stops -/
+def emEnvGo (spec : EnvSpec σ M R) (key : M → ι) :
+    List ι → σ → Pos M R V E → EmMode M → M → List (Inp R E) → σ
+  | _, env, _, _, _, [] => env
+  | seen, env, p, mode, em, i :: rest =>
+    match emInput mode i with
+    | .answer r m => emEnvGo spec key seen (spec.updAsk em r env) p .plain m rest
+    | .leave _ => env
+    | .feed =>
+      match p.resume i with
+      | (.yld m', p') =>
+        emEnvGo spec key (emDecide spec key seen env m').1 (emDecide spec key seen env m').2.1 p'
+          (emDecide spec key seen env m').2.2.1 (emDecide spec key seen env m').2.2.2 rest
+      | _ => env
+
+def emEnvOut (spec : EnvSpec σ M R) (key : M → ι) (seen : List ι) (env : σ) :
+    Out M V E × Pos M R V E → List (Inp R E) → σ
+  | (.yld m', p'), ins =>
+    emEnvGo spec key (emDecide spec key seen env m').1 (emDecide spec key seen env m').2.1 p'
+      (emDecide spec key seen env m').2.2.1 (emDecide spec key seen env m').2.2.2 ins
+  | _, _ => env
+
+/-- state of a machine after more inputs -/
+def stateFrom {τ O : Type} (step : τ → Inp R E → O × τ) (s : τ) (ins : List (Inp R E)) : τ :=
+  ins.foldl (fun st i => (step st i).2) s
+
+theorem stateFrom_fin (fuel : Nat) (key : M → ι) (spec : EnvSpec σ M R) (plan : Beh M R V E) (env : σ)
+    (ins : List (Inp R E)) :
+    stateFrom (emStep fuel key spec plan) ⟨.fin, env⟩ ins = ⟨.fin, env⟩ := by
+  induction ins with
+  | nil => rfl
+  | cons i rest ih =>
+    have : (emStep fuel key spec plan ⟨.fin, env⟩ i).2 = ⟨.fin, env⟩ := by
+      rw [emStep_unfold]
+      cases i <;> simp [envPre, topFirstYield, pmStep, envPost]
+    simp only [stateFrom, List.foldl_cons, this] at ih ⊢
+    exact ih
+
+theorem em_main (spec : EnvSpec σ M R) (hok : spec.OK) (key : M → ι) (plan : Beh M R V E) (f : Nat)
+    (c : Bool) (ins : List (Inp R E)) (hn : NoGenExit ins) :
+    ∀ (pm : PM M ι R V E) (seen : List ι) (env : σ) (p : Pos M R V E) (mode : EmMode M) (em : M),
+      EmInv spec key pm seen p mode em →
+      mGo c (emStep (f + 3) key spec plan) ⟨.atYield pm, env⟩ (em, env) ins
+          = emGo c spec key seen env p mode em ins ∧
+        (stateFrom (emStep (f + 3) key spec plan) ⟨.atYield pm, env⟩ ins).env
+          = emEnvGo spec key seen env p mode em ins := by
+  induction ins with
+  | nil =>
+    intro pm seen env p mode em hinv
+    refine ⟨?_, rfl⟩
+    simp only [mGo, emGo, emStep_close spec key plan f pm seen env p mode em hinv]
+  | cons i rest ih =>
+    intro pm seen env p mode em hinv
+    have ih' := ih hn.tail
+    rw [mGo_cons]
+    simp only [stateFrom, List.foldl_cons]
+    cases hin : emInput mode i with
+    | answer r m =>
+      have hm : mode = .query m ∧ i = .send r := by
+        cases mode <;> cases i <;> simp only [emInput] at hin
+        · cases hin
+        · split at hin <;> cases hin
+        · cases hin; exact ⟨rfl, rfl⟩
+        · split at hin <;> cases hin
+      obtain ⟨rfl, rfl⟩ := hm
+      obtain ⟨pm', h1, h2⟩ := emStep_answer spec key plan f pm seen env p m em r hinv
+      obtain ⟨g1, g2⟩ := ih' pm' seen (spec.updAsk em r env) p .plain m h2
+      rw [emGo, emEnvGo]
+      simp only [hin, h1, mOut]
+      exact ⟨by rw [g1], g2⟩
+    | leave e =>
+      have hm : i = .throw e ∧ isException e = false := by
+        cases mode <;> cases i <;> simp only [emInput] at hin
+        · cases hin
+        · split at hin
+          · cases hin
+          · cases hin; exact ⟨rfl, by simp_all⟩
+        · cases hin
+        · split at hin
+          · cases hin
+          · cases hin; exact ⟨rfl, by simp_all⟩
+      obtain ⟨rfl, hx⟩ := hm
+      have hl := emStep_leave spec key plan f pm env e hx hn.head
+      rw [emGo, emEnvGo]
+      simp only [hin, hl, mOut, Drv.done, Drv.cons]
+      exact ⟨trivial, by
+        have := stateFrom_fin (f + 3) key spec plan env rest
+        simp only [stateFrom] at this
+        rw [this]⟩
+    | feed =>
+      have hf := emStep_feed spec hok key plan f pm seen env p mode em hinv i hin
+      rw [emGo_feed c spec key seen env p mode em i rest hin, emEnvGo]
+      simp only [hin]
+      rcases hres : p.resume i with ⟨o, p'⟩
+      rw [hres] at hf
+      cases o with
+      | ret v =>
+        simp only [EmFeed] at hf
+        simp only [hf, mOut, emOut]
+        exact ⟨trivial, by
+          have := stateFrom_fin (f + 3) key spec plan env rest
+          simp only [stateFrom] at this
+          rw [this]⟩
+      | raise x =>
+        simp only [EmFeed] at hf
+        simp only [hf, mOut, emOut]
+        exact ⟨trivial, by
+          have := stateFrom_fin (f + 3) key spec plan env rest
+          simp only [stateFrom] at this
+          rw [this]⟩
+      | yld m' =>
+        obtain ⟨pm', h1, h2⟩ := hf
+        obtain ⟨g1, g2⟩ := ih' pm' _ _ p' _ _ h2
+        simp only [h1, mOut, emOut]
+        exact ⟨by rw [g1], g2⟩
+
+/-- **Trace semantics of plan_mutator with a closure variable**: the drive of `envMutatorA` is
+    `emOut` -- the specification started on the wrapped plan's first output -- and the variable
+    at the end is `emEnvOut`. -/
+theorem drive_envMutatorA (spec : EnvSpec σ M R) (hok : spec.OK) (key : M → ι) (env0 : σ)
+    (plan : Beh M R V E) (f : Nat) (c : Bool) (ins : List (Inp R E)) (hn : NoGenExit ins) :
+    drive c (envMutatorA (f + 3) key spec env0 plan) ins
+        = emOut c spec key [] env0 ((Pos.new plan).resume (.send default)) ins ∧
+      envAfter (f + 3) key spec env0 plan (.send default :: ins)
+        = emEnvOut spec key [] env0 ((Pos.new plan).resume (.send default)) ins := by
+  unfold envMutatorA envAfter
+  rw [drive_machine]
+  have hstate : Machine.state (emStep (f + 3) key spec plan) ⟨.init, env0⟩ (.send default :: ins)
+      = stateFrom (emStep (f + 3) key spec plan)
+          (emStep (f + 3) key spec plan ⟨.init, env0⟩ (.send default)).2 ins := by
+    simp only [Machine.state, Machine.fold, List.foldl_cons, stateFrom]
+    have gen : ∀ (l : List (Inp R E)) (x : Out (M × σ) V E × EMSt σ M ι R V E),
+        (l.foldl (fun acc i => emStep (f + 3) key spec plan acc.2 i) x).2
+          = l.foldl (fun st i => (emStep (f + 3) key spec plan st i).2) x.2 := by
+      intro l
+      induction l with
+      | nil => intro x; rfl
+      | cons i rest ih => intro x; simp only [List.foldl_cons]; exact ih _
+    exact gen ins _
+  rw [hstate]
+  have hf0 := feed_send spec hok key env0 (f + 1) (pmInit (ι := ι) plan) (Pos.new plan) default
+    rfl rfl rfl rfl rfl (by simp [pmInit])
+  have hf : EmFeed spec key env0 [] (emStep (f + 3) key spec plan ⟨.init, env0⟩ (.send default))
+      ((Pos.new plan).resume (.send default)) := by
+    rw [emStep_unfold]
+    have hpre : envPre spec (.init : PMSt M ι R V E) (.send (default : R)) env0 = env0 := by
+      simp [envPre, topFirstYield]
+    rw [hpre]
+    exact emFeed_of spec key env0 [] _ _ (by simpa [pmStep, pmInit] using hf0)
+  rcases hres : (Pos.new plan).resume (.send default) with ⟨o, p'⟩
+  rw [hres] at hf
+  cases o with
+  | ret v =>
+    simp only [EmFeed] at hf
+    simp only [hf, mOut, emOut, emEnvOut]
+    exact ⟨trivial, by rw [stateFrom_fin]⟩
+  | raise x =>
+    simp only [EmFeed] at hf
+    simp only [hf, mOut, emOut, emEnvOut]
+    exact ⟨trivial, by rw [stateFrom_fin]⟩
+  | yld m' =>
+    obtain ⟨pm', h1, h2⟩ := hf
+    obtain ⟨g1, g2⟩ := em_main spec hok key plan f c ins hn pm' _ _ p' _ _ h2
+    simp only [h1, mOut, emOut, emEnvOut]
+    exact ⟨g1, g2⟩
 
 end
 end BlueskyVerif.Gen
